@@ -16,7 +16,7 @@ SUB = {'s': {'x': {'_default': 0, '_emit': True},
              'm': {'_default': 4, '_divider': 'split', '_emit': True}}}
 
 KINDS = ['add', 'delete', 'generate', 'divide', 'divide_copy', 'move_out',
-         'move_in', 'generate_same', 'add_touch']
+         'move_in', 'generate_same', 'add_touch', 'generate_over']
 
 
 def is_live(obj):
@@ -237,11 +237,22 @@ def make_ops(ctx, kinds, ts_g, d, flavor, fresh_values=None):
                 CTX['issued'].append(('delete', l1[0]))
                 CTX['has_proc'].discard(l1[0])
                 return {'loc1': {'_delete': [l1[0]]}}
-            if label in ('generate', 'generate_same'):
+            if label in ('generate', 'generate_same', 'generate_over'):
                 a = agent(ts_g, d, flavor)
                 key = 'g%d' % fid[0]
                 if label == 'generate_same' and 'a1' not in l1:
                     key = 'a1'       # the path of a compartment deleted before
+                if label == 'generate_over':
+                    # over a compartment that exists (its processes and steps
+                    # are replaced in place, no deletion first)
+                    c = [k for k in l1 if k in CTX['has_proc']]
+                    if not c:
+                        return {}
+                    key = c[0]
+                    CTX.setdefault('replaced_ids', set()).update(
+                        i for i, (p, o) in live_objects(
+                            CTX['engine'].state).items()
+                        if p[:2] == ('loc1', key))
                 CTX['issued'].append(('generate', key, a))
                 CTX['has_proc'].add(key)
                 return {'loc1': {'_generate': [dict(
